@@ -9,7 +9,7 @@ grep -v '^#' mutants/MAP.txt | while read name checks; do
   [ -z "$name" ] && continue
   WT=$(mktemp -d /tmp/molgri_mut_XXXXXX)
   git -C /repo worktree add -q --detach "$WT" HEAD || continue
-  if git -C "$WT" apply "mutants/$name.patch"; then
+  if git -C "$WT" apply "$(pwd)/mutants/$name.patch"; then
     for c in $checks; do
       VERIF_REPO="$WT" ./check "$c" --tier quick --no-evidence > /dev/null 2>&1; rc=$?
       echo "| $name | $c | $rc |" >> "$OUT"; echo "$name $c -> $rc"
